@@ -44,6 +44,11 @@ def run(prog, R, tier="quick", only_rule=None):
     c11.c11c(prog, R, rid="C01.j")
     # a trivial move must not put newer data underneath older data of an intermediary level
     c07.c07h(prog, R, rid="C01.k")
+    # a table's recorded key range decides whether a lookup consults it at all
+    c07.c07c(prog, R, rid="C01.m")
+    # rotation + flush never drop an unflushed memtable: memtable ids are unique (also after reopen)
+    from rules.props import c06
+    c06.c06j(prog, R, rid="C01.n")
 
 
 def c01a(prog, R):
